@@ -365,7 +365,7 @@ pub fn map_children(g: &G, f: &mut dyn FnMut(&G) -> G) -> G {
         }
     }
     match g {
-        Just(_) | JustSeq(..) | Any | OneOf(_) | NoneOf(_) | Select(_) | End | Empty | Custom(..) | EmptyChoice | JustCtx => g.clone(),
+        Just(_) | JustSeq(..) | Any | OneOf(_) | NoneOf(_) | Select(_) | End | Empty | Custom(..) | EmptyChoice | JustCtx | RecRef(_) => g.clone(),
         Map(a) => Map(bx(a)),
         To(a) => To(bx(a)),
         Ignored(a) => Ignored(bx(a)),
@@ -393,6 +393,7 @@ pub fn map_children(g: &G, f: &mut dyn FnMut(&G) -> G) -> G {
         Lazy(a) => Lazy(bx(a)),
         Ext(a, o) => Ext(bx(a), *o),
         CustomNest(a) => CustomNest(bx(a)),
+        Rec(a, d) => Rec(bx(a), *d),
         NestedDelims(a) => NestedDelims(bx(a)),
         WithCtx(c, a) => WithCtx(*c, bx(a)),
         MapCtx(a) => MapCtx(bx(a)),
@@ -627,4 +628,58 @@ pub fn k_memo() -> Class {
     let unary = vec![u1(|a| Some(OrNot(a))), u1(|a| if nn(&a) { Some(Rep(a, Bounds::STAR, Sink::Vec)) } else { None }), u1(|a| Some(TryMap(a)))];
     let binary = vec![u2(|a, c| Some(Then(a, c))), u2(|a, c| Some(Or(a, c)))];
     Class { name: "Kmemo", leaves, unary, binary, ternary: vec![] }
+}
+
+/// Recursive grammars with guarded self-references (C12): every body of a small class with
+/// `rec_ref0` as an extra leaf that mentions it and is guarded, wrapped in `rec(..)` (built with
+/// recursive()) and `rec_declare(..)` (declare/define); plus two-level nestings referring to the outer
+/// binder (mutual recursion).
+pub fn k_rec_bodies() -> Class {
+    let leaves = vec![Just('a'), Just('b'), End, Empty, RecRef(0)];
+    let unary = vec![u1(|a| Some(OrNot(a))), u1(|a| Some(Map(a))), u1(|a| if nn(&a) { Some(Rep(a, Bounds::STAR, Sink::Vec)) } else { None }), u1(|a| Some(Validate(a, 1)))];
+    let binary = vec![u2(|a, c| Some(Then(a, c))), u2(|a, c| Some(Or(a, c))), u2(|a, c| Some(IgnoreThen(a, c)))];
+    Class { name: "Krec", leaves, unary, binary, ternary: vec![] }
+}
+pub fn k_rec(n: usize) -> Vec<G> {
+    let mut out = vec![];
+    let bodies: Vec<G> = k_rec_bodies().upto(n).into_iter().filter(|g| g.any_node(&|x| matches!(x, RecRef(_)))).collect();
+    for body in &bodies {
+        for declare in [false, true] {
+            let g = Rec(b(body.clone()), declare);
+            if well_formed_rec(&g, 0) {
+                out.push(g);
+            }
+        }
+    }
+    // mutual recursion: A = a B | b ; B = (b A | a) style, as nested binders: the inner body may refer to
+    // the outer rule through rec_ref1
+    let small: Vec<G> = k_rec_bodies().upto(3).into_iter().filter(|g| g.any_node(&|x| matches!(x, RecRef(_)))).collect();
+    for outer in &small {
+        for inner in &small {
+            // replace the outer body's rec_ref0 by an inner Rec whose own rec_ref0 stays and one occurrence refers outwards
+            let inner_out = map_refs(inner, 1);
+            for (d1, d2) in [(false, false), (true, true), (false, true)] {
+                let nested = subst_ref(outer, &Rec(b(Or(b(inner_out.clone()), b(Then(b(Just('b')), b(RecRef(0)))))), d2));
+                let g = Rec(b(nested), d1);
+                if well_formed_rec(&g, 0) && g.size() <= 12 {
+                    out.push(g);
+                }
+            }
+        }
+    }
+    out
+}
+/// rewrite every `rec_ref0` to `rec_ref<k>`
+fn map_refs(g: &G, k: u8) -> G {
+    match g {
+        RecRef(0) => RecRef(k),
+        _ => map_children(g, &mut |c| map_refs(c, k)),
+    }
+}
+/// replace every `rec_ref0` by `by`
+fn subst_ref(g: &G, by: &G) -> G {
+    match g {
+        RecRef(0) => by.clone(),
+        _ => map_children(g, &mut |c| subst_ref(c, by)),
+    }
 }
